@@ -1535,6 +1535,7 @@ def _build():
 
 FINDINGS = _build()
 FIXED = [
+    "fixed: property=C02 f4150fc class/function with docstring_format='google': only the first line of a multi-line description came back",
     'fixed: property=C02 fc46805 class/pydantic/function with emit_default_doc: string default with a full stop cut at the dot or SyntaxError',
     'fixed: property=C02 26237d2 class/pydantic/function with emit_default_doc: string default with a double quote raised SyntaxError on parse',
     "fixed: property=C02 57d6e6f argparse: parsing add_argument(type=int, choices=(1, 2), default=2) raised TypeError (', '.join over ints); Literal[1, 2] with a default could not make the round trip",
@@ -1542,5 +1543,5 @@ FIXED = [
 ]
 
 # patterns of defects that have since been repaired in the repository (see FIXED): no longer known findings
-FIXED_IDS = ['C02-double-quote-in-string-default-not-escaped', 'C02-function-doc-65', 'C02-function-doc-66', 'C02-string-default-cut-at-full-stop']
+FIXED_IDS = ['C02-double-quote-in-string-default-not-escaped', 'C02-function-doc-65', 'C02-function-doc-66', 'C02-google-multiline-description-truncated', 'C02-string-default-cut-at-full-stop']
 FINDINGS = [f for f in FINDINGS if f["id"] not in FIXED_IDS]
